@@ -23,7 +23,7 @@ ASSUMPTIONS = [
     "constraints built by fromfile are read back through the public value() of their functions at unit points",
     "solve agreement is judged only when both solves return a status other than 'unknown', the file's LP meets the rank conditions of solvers.lp, its optimal value is insensitive to the 6-digit rounding (HiGHS on exact vs rounded data within 1e-5) and the original op itself agrees with HiGHS (op.solve itself is C12's business)",
 ]
-REQUIRED_COUNTERS = ["lp.earlier-export-of-a-subproblem", "kind.roundtrip", "kind.file", "kind.nonlp", "check.writer.rows", "check.writer.columns",
+REQUIRED_COUNTERS = ["kind.numeric-names", "lp.earlier-export-of-a-subproblem", "kind.roundtrip", "kind.file", "kind.nonlp", "check.writer.rows", "check.writer.columns",
                      "check.writer.free-bounds", "check.reader.rows", "check.reader.objective", "check.roundtrip.solve",
                      "check.file.rows", "check.file.objective-constant", "check.nonlp.refused",
                      "row.N", "row.L", "row.G", "row.E", "range.L+", "range.L-", "range.G+", "range.G-", "range.E+", "range.E-",
@@ -788,8 +788,48 @@ def run(ctx):
             except OSError:
                 pass
 
+    def numeric_names_case(c, rng):
+        """distinct-or-empty names where a given name looks like an integer: unnamed objects are labelled by their position,
+        so the labels of a named and of an unnamed object can coincide although the names are distinct"""
+        from cvxopt import matrix
+        ctx.count("kind.numeric-names")
+        nv = rng.randint(2, 4)
+        digits = rng.sample(["0", "1", "2", "3"], nv)
+        named = [rng.random() < 0.5 for _ in range(nv)]
+        if all(named): named[rng.randrange(nv)] = False
+        if not any(named): named[rng.randrange(nv)] = True
+        vs = [M.variable(rng.randint(1, 2), digits[i] if named[i] else "") for i in range(nv)]
+        coef = [round(rng.uniform(1, 3), 1) for _ in range(nv)]
+        obj = sum((coef[i] * M.sum(vs[i]) for i in range(1, nv)), coef[0] * M.sum(vs[0]))
+        cons = []
+        for v in vs:
+            cons += [v <= 10.0, v >= -10.0 + rng.randint(0, 3)]
+        rng.shuffle(cons)
+        p = M.op(obj, cons)
+        want = sum(len(v) for v in vs)
+        c.cls("numeric-names", nv, "".join("n" if t else "u" for t in named))
+        c.desc.update({"variables": [(v.name, len(v)) for v in vs]})
+        path = tmpfile()
+        c.check()
+        try:
+            try:
+                p.tofile(path)
+                q = M.op(); q.fromfile(path)
+            except Exception as e:
+                c.fail("tofile:numeric-name-collides-with-positional-label", "round trip of a problem with variables named %r raised %s: %s" %
+                       ([v.name for v in vs], type(e).__name__, e)); return
+            got = sum(len(v) for v in q.variables())
+            c.require(got == want, "tofile:numeric-name-collides-with-positional-label",
+                      "variables named %r: %d scalar variables written, %d read back" % ([v.name for v in vs], want, got))
+        finally:
+            try: os.unlink(path)
+            except OSError: pass
+
     def one(c):
         rng = c.rng
+        if rng.random() < 0.04:
+            c.desc["kind"] = "numeric-names"
+            return numeric_names_case(c, rng)
         kind = rng.choice(["roundtrip"] * 5 + ["file"] * 4 + ["nonlp"])
         c.desc["kind"] = kind
         if kind == "file":
